@@ -650,11 +650,11 @@ def run_hist(aa, inp):
             new = sh_stored(shs[gi])[st["k"]]
             steps.append(f"(HEdit {cnat(gi)} {cnat(st['k'])} {c_pt(new)})")
             continue
+        if gi >= len(objs): continue                  # a grid that was to come out of an earlier call which raised / was skipped
         ci = dict(st); ci["rpc"] = inp.get("rpc", False)
         fnd, band = classify(ci, shs[gi], e)
         if band:
             SKIPPED["band"] += 1; continue
-        if gi >= len(objs): continue                  # a grid that was to come out of an earlier call which raised / was skipped
         d = do_call(aa, ci, objs[gi], shs[gi], pool)
         post = stored_of(objs[gi])
         if st.get("feed") and "result" in d:
